@@ -29,6 +29,16 @@ inline constexpr struct fma {
 #endif
         }
 
+        // a NaN argument is the result: no arithmetic on it, constant evaluation would fail
+        if (x != x) {
+            return x;
+        }
+        if (y != y) {
+            return y;
+        }
+        if (z != z) {
+            return z;
+        }
         return x * y + z;
     }
 } fma;
